@@ -101,13 +101,13 @@ From RZ.sem Require Import CBody.
 From RZ.gen Require Import OpTablesGen.
 From RZ.proofs Require Import OpTablesProofs.
 Theorem C02_operator_tables_are_the_compilers :
-  (forall op ta a b tself t1 ib0 ic0 ib1 ic1, In op bitop_ops ->
-     elab_text a b (bitop_text op tself ta t1 ib0 ic0 ib1 ic1) = Some (bitop_il_exec op ta a b)) /\
-  (forall op ta tb a b tself ib0 ic0 ib1 ic1, In op compareop_ops -> cmp_float ta tb = false \/ op <> "!=" ->
-     elab_text a b (compareop_text op tself ta tb ib0 ic0 ib1 ic1) = Some (cmp_il_exec op ta tb a b)) /\
-  (forall op o ta tb a b tself ib0 ic0 ib1 ic1, In (op, o) arith_ops -> cmp_float ta tb = false \/ op <> "%" ->
-     elab_text a b (arithmeticop_text op tself ta tb ib0 ic0 ib1 ic1) = Some (arith_il_exec o ta tb a b)) /\
-  (forall op a b ib0 ic0 ib1 ic1 tself t0 t1, In op booleanop_ops ->
-     elab_text a b (booleanop_text op tself t0 t1 ib0 ic0 ib1 ic1) = Some (boolop_il_exec op (ib0 || ic0) (ib1 || ic1) a b)).
+  (forall op ta a b tself t1 ib0 ic0 ib1 ic1 il0 v0, In op bitop_ops ->
+     elab_text a b (bitop_text op tself ta t1 ib0 ic0 ib1 ic1 il0 v0) = Some (bitop_il_exec op ta a b)) /\
+  (forall op ta tb a b tself ib0 ic0 ib1 ic1 il0 v0, In op compareop_ops -> cmp_float ta tb = false \/ op <> "!=" ->
+     elab_text a b (compareop_text op tself ta tb ib0 ic0 ib1 ic1 il0 v0) = Some (cmp_il_exec op ta tb a b)) /\
+  (forall op o ta tb a b tself ib0 ic0 ib1 ic1 il0 v0, In (op, o) arith_ops -> cmp_float ta tb = false \/ op <> "%" ->
+     elab_text a b (arithmeticop_text op tself ta tb ib0 ic0 ib1 ic1 il0 v0) = Some (arith_il_exec o ta tb a b)) /\
+  (forall op a b ib0 ic0 ib1 ic1 il0 v0 tself t0 t1, In op booleanop_ops ->
+     elab_text a b (booleanop_text op tself t0 t1 ib0 ic0 ib1 ic1 il0 v0) = Some (boolop_il_exec op (ib0 || ic0) (ib1 || ic1) a b)).
 Proof. exact (conj bitop_text_ok (conj compareop_text_ok (conj arithmeticop_text_ok booleanop_text_ok))). Qed.
 Print Assumptions C02_operator_tables_are_the_compilers.
